@@ -44,6 +44,7 @@ def _worker(args):
     except Exception as exc:  # noqa: BLE001
         out["status"] = "exc"
         out["exc"] = specrun.exc_info(exc)
+        out["found"] = getattr(exc, "verif_found", None)
         return out
     try:
         out["status"] = "spec"
@@ -156,6 +157,13 @@ def run_specs(pid, tier, seed, factor, judge):
             c.update(rot="ow", alpha="abc", db=rnd.choice(["RuleDB", "RuleDB", "RuleDBForgetStrategy"]), perc=rnd.choice([100, 100, 50, 20]),
                      iterative=False)
             c["patterns"] = upword.rand_patterns(rnd, "abc", 3, 2)
+            cfgs.append(c)
+    if pid in ("C01", "C02"):
+        # equivalences whose only non-empty child is not the first child of the rule (a relabelling padded with an empty class),
+        # in universes where they are walked in both directions
+        for _ in range(common.scale(tier, 24, 240) * factor):
+            c = specrun.rand_config(rnd, "rot")
+            c.update(rot="pad", alpha="abc", db=rnd.choice(["RuleDB", "RuleDBForgetStrategy", "RuleDBForest"]), iterative=False)
             cfgs.append(c)
     if pid == "C01":
         # ready rules made for classes other than the one being expanded (default / memory-saving databases key rules by label)
